@@ -4,6 +4,7 @@ CONSTANTS
   MaxLen = 6
   Thresholds = {0, 1, 2, 3}
   AnswerDelays = {0}
-INVARIANTS TypeOK InvAccuracy InvTiming InvSilentStop InvCounter InvCompleteness InvFinal InvGoneAtClose InvNoTickAfterUser
+  DrainLens = {1, 2}
+INVARIANTS TypeOK InvAccuracy InvTiming InvSilentStop InvCounter InvCompleteness InvFinal InvGoneAtClose InvNoTickAfterUser InvGoneWhenClosing
 PROPERTIES NoPingAfterStop Terminates
 CHECK_DEADLOCK FALSE
